@@ -79,7 +79,8 @@ def main():
         for p in props:
             rc, out = sh(f"./check {p} --repo {wt} --no-evidence", cwd=ROOT)
             lines = [l for l in out.splitlines()
-                     if "rule=" in l or l.startswith("ANALYSIS-ERROR")]
+                     if ("rule=" in l and not l.startswith("KNOWN-FINDING"))
+                     or l.startswith("ANALYSIS-ERROR")]
             res["props"][p] = {"exit": rc, "findings": lines[:6]}
         sh(f"git -C {wt} reset -q --hard HEAD")
         rc_without, _ = sh(f"{PY} {demo}", cwd="/tmp", env={"PYTHONPATH": wt})
